@@ -15,6 +15,9 @@
 (*   [ev "Ret",  op "Collect", proc, rd, err, one, dup, bad, iv]               *)
 (*   [ev "Ret",  op "FF"|"SD", proc, rd, err]                                  *)
 (*   [ev "Export", rd, src, one, dup, bad, iv]  src = "run" | proc of Shutdown *)
+(*   [ev "CbErr", src]   an observable callback returned an error (logged inside *)
+(*                       the callback); Collect then returns err = "partial":    *)
+(*                       the data is handed out together with the error          *)
 (* err = "" means success.  one/dup = ids reported with multiplicity 1 / >= 2, *)
 (* bad = the sum was not decodable, iv = {[inst, st, t]} reported intervals    *)
 (* (ranks of the SDK's own timestamps; never the harness's clock).             *)
@@ -34,7 +37,8 @@ Fresh(cfg) == [cfg |-> cfg,          \* rd -> [temp |-> "delta"|"cumulative", ki
                csnap |-> <<>>,       \* proc -> covered[rd] at its current Call
                inflight |-> [r \in DOMAIN cfg |-> {}],  \* procs inside a Collect / Shutdown call on r
                owe |-> {},           \* [id, rd, via, J]: id must still be reported to rd by one of J
-               runDone |-> [r \in DOMAIN cfg |-> FALSE]] \* a Shutdown of r returned nil
+               runDone |-> [r \in DOMAIN cfg |-> FALSE], \* a Shutdown of r returned nil
+               cberr |-> FALSE]      \* an observable callback returned an error during some collection
 
 Put(f, k, v) == [x \in (DOMAIN f) \cup {k} |-> IF x = k THEN v ELSE f[x]]
 Key(id) == id[1]
@@ -62,6 +66,12 @@ AddReport(m, rd, R, e) ==
             !.reports[rd] = IF m.cfg[rd].temp = "cumulative" THEN @ \cup {R} ELSE @,
             !.iv[rd] = @ \cup e.iv]
 
+(* Known deviation of the code (known_findings/C02.json): when an observable callback returns an error,  *)
+(* pipeline.produce still runs every compute function (delta maps cleared) but returns the error, and the *)
+(* periodic reader then skips the export: the interval's measurements are never handed to the exporter.   *)
+Lost(m, rd, via, id) == [kind |-> IF m.cberr THEN "lost-after-callback-error" ELSE "lost", rd |-> rd, via |-> via,
+                         temp |-> m.cfg[rd].temp, rkind |-> m.cfg[rd].kind, id |-> id]
+
 (* ---- debts: process j (a proc, or "run") finished a collection of rd; entries now covered are paid, *)
 (* entries that nobody can pay any more are lost                                                       *)
 Settle(m, rd, j) ==
@@ -69,7 +79,7 @@ Settle(m, rd, j) ==
       upd  == {IF o.rd = rd THEN [o EXCEPT !.J = @ \ {j}] ELSE o : o \in open}
       dead == {o \in upd : o.J = {}}
   IN <<[m EXCEPT !.owe = upd \ dead],
-       {[kind |-> "lost", rd |-> o.rd, via |-> o.via, temp |-> m.cfg[o.rd].temp, id |-> o.id] : o \in dead}>>
+       {Lost(m, o.rd, o.via, o.id) : o \in dead}>>
 
 (* ---- a successful Collect / ForceFlush / Shutdown of rd returned: everything whose Add had returned *)
 (* before the call must be in a completed report of rd, or be owed by a collection still in flight     *)
@@ -78,7 +88,7 @@ Oblige(m, rd, proc, op) ==
       J == (m.inflight[rd] \ {proc})
            \cup (IF op = "Collect" /\ m.cfg[rd].kind = "periodic" /\ ~m.runDone[rd] THEN {"run"} ELSE {})
   IN IF J = {}
-       THEN <<m, {[kind |-> "lost", rd |-> rd, via |-> op, temp |-> m.cfg[rd].temp, id |-> x] : x \in missing}>>
+       THEN <<m, {Lost(m, rd, op, x) : x \in missing}>>
        ELSE <<[m EXCEPT !.owe = @ \cup {[id |-> x, rd |-> rd, via |-> op, J |-> J] : x \in missing}], {}>>
 
 Step(m, e) ==
@@ -92,16 +102,17 @@ Step(m, e) ==
          LET rd == e.rd
              R == e.one \cup e.dup
              m0 == [m EXCEPT !.inflight[rd] = @ \ {e.proc}, !.snap = Put(@, e.proc, {}), !.csnap = Put(@, e.proc, {})]
-         IN IF e.err # ""
+         IN IF e.err \notin {"", "partial"}
               THEN Settle(m0, rd, e.proc)
               ELSE LET v1 == ReportViols(m0, rd, R, e)
-                             \cup (IF m.cfg[rd].temp = "cumulative" /\ ~(m.snap[e.proc] \subseteq R)
+                             \cup (IF e.err = "" /\ m.cfg[rd].temp = "cumulative" /\ ~(m.snap[e.proc] \subseteq R)
                                      THEN {[kind |-> "cumulative-missed", rd |-> rd, ids |-> m.snap[e.proc] \ R]} ELSE {})
-                             \cup (IF m.cfg[rd].temp = "cumulative" /\ ~(m.csnap[e.proc] \subseteq R)
+                             \cup (IF e.err = "" /\ m.cfg[rd].temp = "cumulative" /\ ~(m.csnap[e.proc] \subseteq R)
                                      THEN {[kind |-> "cumulative-decreased", rd |-> rd, ids |-> m.csnap[e.proc] \ R]} ELSE {})
                        m1 == AddReport(m0, rd, R, e)
                        s == Settle(m1, rd, e.proc)
-                       o == Oblige([s[1] EXCEPT !.snap = m.snap], rd, e.proc, "Collect")
+                       o == IF e.err = "partial" THEN <<s[1], {}>>      \* data handed out with an error: no promise
+                            ELSE Oblige([s[1] EXCEPT !.snap = m.snap], rd, e.proc, "Collect")
                    IN <<[o[1] EXCEPT !.snap = m0.snap], v1 \cup s[2] \cup o[2]>>
     [] e.ev = "Export" ->
          LET rd == e.rd
@@ -127,5 +138,6 @@ Step(m, e) ==
                        s2 == Settle(s1[1], rd, "run")     \* the run loop ended before the final collection
                        o == Oblige([s2[1] EXCEPT !.snap = m.snap], rd, e.proc, "SD")
                    IN <<[o[1] EXCEPT !.snap = m0.snap], s1[2] \cup s2[2] \cup o[2]>>
+    [] e.ev = "CbErr" -> <<[m EXCEPT !.cberr = TRUE], {}>>
     [] OTHER -> <<m, {}>>
 =============================================================================
